@@ -88,7 +88,19 @@ impl GV {
             Value::Integer(n) => GV::Int(*n),
             Value::String(s) => GV::Str(s.clone()),
             Value::List(l) => GV::List(l.iter().map(|x| GV::from_value(x, graph, tree)).collect()),
-            Value::Set(l) => GV::Set(l.iter().map(|x| GV::from_value(x, graph, tree)).collect()),
+            Value::Set(l) => {
+                // canonical element order: the implementation orders syntax-node references by node id (an address);
+                // consecutive syntax nodes are re-ordered by preorder index, which is what the model uses
+                let mut v: Vec<GV> = l.iter().map(|x| GV::from_value(x, graph, tree)).collect();
+                let mut i = 0;
+                while i < v.len() {
+                    let mut j = i;
+                    while j < v.len() && matches!(v[j], GV::Syn(_)) { j += 1; }
+                    if j > i + 1 { v[i..j].sort_by_key(|x| if let GV::Syn(n) = x { *n } else { 0 }); }
+                    i = j.max(i + 1);
+                }
+                GV::Set(v)
+            }
             Value::SyntaxNode(r) => GV::Syn(*tree.ids.get(&graph[*r].id()).expect("known syntax node")),
             Value::GraphNode(r) => GV::Graph(r.index() as u32),
         }
